@@ -475,7 +475,7 @@ def gen_rowvec(tier):
             st.tuples(st.integers(1, 6), st.integers(1, 6), st.just(3)).map(list),
             st.tuples(st.integers(1, 30), st.just(3)).map(list),
             st.just([3]), st.just([4, 6, 3])),
-        "values": st.sampled_from(["dyadic", "float"]),
+        "values": st.sampled_from(["dyadic", "float", "uint8", "uint16"]),
         "pseed": st.integers(0, 2**20),
     })
 
@@ -485,8 +485,13 @@ def check_row_vector(case):
     cls = case["cls"]
     bal = {"white": cb.WhiteBalance, "color": cb.ColorBalance, "affine": cb.AffineBalance,
            "adaptive": cb.AdaptiveBalance}[cls]()
-    dy = case["values"] == "dyadic"
-    if dy:
+    dy = case["values"] in ("dyadic", "uint8", "uint16")
+    if case["values"] in ("uint8", "uint16"):
+        # integer-typed swatches / images (as read from file): the balance acts on their values
+        x = rng.integers(0, 256 if case["values"] == "uint8" else 65536, size=case["shape"]).astype(case["values"])
+        a = rng.integers(-16, 17, size=(3, 3)) / 8.0
+        b = rng.integers(-16, 17, size=3) / 8.0
+    elif dy:
         x = rng.integers(-16, 17, size=case["shape"]) / 8.0
         a = rng.integers(-16, 17, size=(3, 3)) / 8.0
         b = rng.integers(-16, 17, size=3) / 8.0
@@ -502,7 +507,7 @@ def check_row_vector(case):
     if cls in ("affine", "adaptive"):
         bal.balance_translation = b.copy()
     got = np.asarray(bal.apply_balance(x))
-    want = ref_apply(x, a, b)
+    want = ref_apply(x.astype(float), a, b)
     tags = {"cls": cls, "ndim": len(case["shape"]), "values": case["values"]}
     if got.shape != want.shape:
         raise Violation("shape", f"apply_balance: {x.shape} -> {got.shape}", tags)
@@ -523,6 +528,48 @@ _RULE = ("Hypothesis draws the swatch layout (4x6x3 chart or flat Nx3, N 6..40),
          "identity (D = I +- 0.3, A = I + 0.15 U(-1,1), |b| <= 0.1); non-trivial = a non-symmetric "
          "ground-truth / stage matrix (|A - A^T| > 0.05), a non-commuting stage list, or a fit not "
          "started from the identity; distinct = (swatch spec, class / modes, seeds)")
+
+# ---------------------------------------------------------------------------------------
+# 5b. reset() gives back a fresh balance
+# ---------------------------------------------------------------------------------------
+
+
+def gen_reset(tier):
+    modes = st.sampled_from(["diagonal", "linear", "affine"])
+    return st.fixed_dictionaries({
+        "first": st.lists(modes, min_size=1, max_size=2), "second": st.lists(modes, min_size=1, max_size=2),
+        "pseed": st.integers(0, 2**20)})
+
+
+def check_reset(case):
+    """AdaptiveBalance: staged fits, reset(), staged fits again - after reset() the object is the
+    identity and the second round of fits equals the same fits on a fresh object."""
+    rng = np.random.default_rng(case["pseed"])
+    src = rng.uniform(0.1, 0.9, size=(12, 3))
+    A1 = np.eye(3) + 0.15 * rng.uniform(-1, 1, (3, 3))
+    b1 = 0.08 * rng.uniform(-1, 1, 3)
+    dst1 = src @ A1 + b1
+    A2 = np.eye(3) + 0.15 * rng.uniform(-1, 1, (3, 3))
+    dst2 = src @ A2 + (0.05 * rng.uniform(-1, 1, 3) if "affine" in case["second"] else 0.0)
+    t = {"first": "-".join(case["first"]), "second": "-".join(case["second"])}
+    bal = cb.AdaptiveBalance()
+    for m in case["first"]:
+        bal.find_balance(src, dst1, mode=m)
+    bal.reset()
+    x = rng.uniform(0, 1, size=(7, 3))
+    if not np.array_equal(np.asarray(bal.apply_balance(x)), x):
+        raise Violation("reset-not-identity", f"after fits {case['first']} and reset() the balance maps x to "
+                        f"x + {np.abs(np.asarray(bal.apply_balance(x)) - x).max():.3e}", t)
+    fresh = cb.AdaptiveBalance()
+    for m in case["second"]:
+        bal.find_balance(src, dst2, mode=m)
+        fresh.find_balance(src, dst2, mode=m)
+    got, want = np.asarray(bal.apply_balance(x)), np.asarray(fresh.apply_balance(x))
+    if not np.array_equal(got, want):
+        raise Violation("reset-then-fit", f"fits {case['second']} after reset() differ from the same fits on a "
+                        f"fresh object (max {np.abs(got - want).max():.3e})", t)
+    return Outcome("affine" in case["first"], case, (t["first"], t["second"]))
+
 
 # ---------------------------------------------------------------------------------------
 # 6. use inside the colour correction: white balance, then colour balance of the chosen class
@@ -616,6 +663,8 @@ PROP = Prop(
             n={"quick": 160, "thorough": 4000}, shards={"quick": 4, "thorough": 16}),
         Sub("staged_recovers_composed_map", check_staged_recovers_composed_map, gen=gen_composed,
             n={"quick": 240, "thorough": 6000}, shards={"quick": 3, "thorough": 16}),
+        Sub("reset_gives_fresh_balance", check_reset, gen=gen_reset,
+            n={"quick": 60, "thorough": 1500}, shards={"quick": 4, "thorough": 16}),
         Sub("colorcorrection_is_staged_composition", check_colorcorrection_stages, gen=gen_colorcorrection,
             n={"quick": 48, "thorough": 1200}, shards={"quick": 4, "thorough": 16}),
         Sub("row_vector_convention", check_row_vector, gen=gen_rowvec,
